@@ -34,6 +34,34 @@ def main():
                 out.append({'__error__': f'{type(e).__name__}: {e}'})
         json.dump({'hashseed': os.environ.get('PYTHONHASHSEED'), 'set_order': list({'x', 'y', 'zz'}), 'results': out}, sys.stdout)
         return 0
+    if job['op'] == 'segment':
+        # one process lifetime of a history: chain constructions and value requests on an EXISTING data directory
+        from tcv import histories, worlds
+
+        w = worlds.World(job['desc'], job['world_root'])
+        slots = {}
+        out = []
+        for op in job['ops']:
+            mark = len(w.rt.log)
+            rec = {'op': op}
+            try:
+                if op[0] == 'new':
+                    slots[op[1]] = w.chain(op[2], base_dir=job['data_dir'])
+                elif op[0] == 'value':
+                    t = slots[op[1]].tasks[op[2]]
+                    kind = job['kinds'][op[2]]
+                    p = w.decode(t.value, kind)
+                    rec['term'] = p['term']
+                elif op[0] == 'inspect':
+                    ch = slots[op[1]]
+                    rec['has_data'] = {fn: bool(t.has_data) for fn, t in ch.tasks.items()}
+                    _ = ch.tasks_df
+            except Exception as e:  # noqa
+                rec['error'] = f'{type(e).__name__}: {e}'
+            rec['run_objs'] = [[r[0].split('::')[-1], r[1]] for r in w.rt.log[mark:]]
+            out.append(rec)
+        json.dump({'pid': os.getpid(), 'results': out}, sys.stdout)
+        return 0
     return 2
 
 
